@@ -52,6 +52,12 @@ class FoldConstants(SuiteTransformer):
             # There is no nan literal.
             # we could use float('nan'), but that complicates folding as it's not a Constant
             return node
+        elif isinstance(original_value, complex) and (
+            math.isinf(original_value.real) or math.isnan(original_value.real)
+            or math.isinf(original_value.imag) or math.isnan(original_value.imag)
+        ):
+            # repr() of such a value spells inf/nan as names, and there is no literal for it.
+            return node
         elif isinstance(original_value, bool):
             new_node = ast.NameConstant(value=original_value)
         elif isinstance(original_value, (int, float, complex)):
